@@ -209,6 +209,48 @@ pub fn run(tier: &str) -> Result<Report, String> {
         }
         parts.push(json!({"part": "batch entry points on ordered pairs of the plain pool", "batches": n_batches}));
     }
+    // 1b'. long batches (40 / 100 formulae with tied heights, three deterministic orders) through the four
+    //      multi-formula / multi-tree entry points: every position against the oracle
+    {
+        use biodivine_hctl_model_checker::model_checking as mc;
+        let mut n_long = 0u64;
+        for b in nets.iter().filter(|b| ["con2", "imp1"].contains(&b.name.as_str())) {
+            let ctx = NetCtx::new(b.clone(), Labels::default(), "none");
+            let all: Vec<F> = Gen::new(Alphabet::all_ops(b.n as u8, 2)).closed_up_to(3);
+            let n = if quick { 40 } else { 100 };
+            for (oi, stride) in [7usize, 13, 1].iter().enumerate() {
+                let idx: Vec<usize> = (0..n).map(|i| (i * stride * 5 + oi * 11) % all.len()).collect();
+                let texts: Vec<String> = idx.iter().map(|i| all[*i].show(&ctx.user)).collect();
+                let ts: Vec<&str> = texts.iter().map(|s| s.as_str()).collect();
+                let expected: Vec<Vec<crate::bridge::Mask>> = idx.iter().map(|i| ctx.expected(&all[*i])).collect();
+                let trees: Vec<_> = idx.iter().map(|i| all[*i].to_tree(&ctx.mini)).collect();
+                let runs = vec![
+                    ("model_check_multiple_formulae_dirty", crate::report::guarded(std::panic::AssertUnwindSafe(|| mc::model_check_multiple_formulae_dirty(ts.clone(), &b.graph)))),
+                    ("model_check_multiple_formulae", crate::report::guarded(std::panic::AssertUnwindSafe(|| mc::model_check_multiple_formulae(ts.clone(), &b.graph)))),
+                    ("model_check_multiple_trees_dirty", crate::report::guarded(std::panic::AssertUnwindSafe(|| mc::model_check_multiple_trees_dirty(trees.clone(), &b.graph)))),
+                    ("model_check_multiple_trees", crate::report::guarded(std::panic::AssertUnwindSafe(|| mc::model_check_multiple_trees(trees.clone(), &b.graph)))),
+                ];
+                for (name, r) in runs {
+                    n_long += 1;
+                    let what = match r {
+                        Ok(Ok(v)) if v.len() == n => (0..n).find_map(|i| {
+                            let d = if name.ends_with("dirty") { ctx.diff_dirty(&v[i], &expected[i]) } else { ctx.diff_canonical(&v[i], &expected[i]) };
+                            d.map(|d| format!("position {i} (`{}`): {d}", texts[i]))
+                        }),
+                        Ok(Ok(v)) => Some(format!("{} results for {n} formulae", v.len())),
+                        Ok(Err(e)) => Some(format!("Err: {e}")),
+                        Err(p) => Some(format!("panic: {p}")),
+                    };
+                    if let Some(w) = what {
+                        rep.violations.push(crate::report::Violation { case: json!({"kind": "none"}), what: format!("{name} on a batch of {n} formulae (order {oi}) on {}: {w}", b.name), size: 900 });
+                    }
+                }
+                rep.evaluations += 4 * n as u64;
+                rep.traces_validated += 4 * n as u64 * b.cols.len() as u64;
+            }
+        }
+        parts.push(json!({"part": "long batches (tied heights, three orders) through four multi entry points", "batches": n_long}));
+    }
     // 2. all 2-variable networks of the grammar
     let (all2, info) = all2_nets(3, if quick { Some(1) } else { None })?;
     rep.set("all_2_variable_networks", info);
@@ -250,7 +292,7 @@ pub fn run(tier: &str) -> Result<Report, String> {
     }
     parts.push(json!({"part": "operator slices", "nodes_exactly": m_slice, "slices": if quick { sl.len().div_ceil(7) } else { sl.len() }, "slice_names": sl.iter().map(|s| s.0.clone()).collect::<Vec<_>>(), "formulae": slice_total, "networks": slice_nets}));
     rep.set("parts", json!(parts));
-    rep.rule = "(1) all closed formulae with at most max_nodes nodes over the plain operator set, all closed formulae with at most max_nodes-1 nodes over all nine binary operators that use EW or AW, and the template families (benchmark formulae, two/three-variable quantifier nests with jumps, duplicated sub-formulae with swapped variable roles, one-free-variable sub-formulae with inner quantifiers duplicated at equal and different quantifier depths in both orders) on every core network through model_check_formula, _dirty, model_check_tree, _tree_dirty; (1a) all closed formulae with <= 3 (4) nodes over all operators + templates on four networks whose variable names are unusual as data (Ca_extra_cell / b_extra_1, x / xx, a / ab, EF1 / TRUE); (1e) the same bound on five networks that are unusual as data (constants only, a constant feeding a toggle, 4 variables, an implicit function of 3 regulators, a sink); (1c) deterministic deep quantifier nests (4..10 quantifiers on one branch on 1-variable networks, up to 6 on con2; graphs with as many spare variable sets); (1d) 13 hybrid formulae with closed forms on a frozen 32-variable network whose argument set has a BDD of ~2^17 nodes (large as data), and 8 temporal formulae with closed forms on the same set on a network with two rising chains; (1b) every ordered pair of a pool of closed formulae as a two-element batch through model_check_multiple_formulae(_dirty), each position against the oracle; (2) all closed formulae with <= 3 (every 25th network: 4) nodes on every network of the de-duplicated family of ALL 2-variable networks of the grammar; (3) all closed formulae with exactly m nodes in every operator slice (each pair of operator groups x each quantifier, jump included). Every result is compared on every state x valid colour with the explicit-state oracle; distinct_nontrivial = number of distinct (network, verdict table) pairs that are neither empty nor full".into();
+    rep.rule = "(1) all closed formulae with at most max_nodes nodes over the plain operator set, all closed formulae with at most max_nodes-1 nodes over all nine binary operators that use EW or AW, and the template families (benchmark formulae, two/three-variable quantifier nests with jumps, duplicated sub-formulae with swapped variable roles, one-free-variable sub-formulae with inner quantifiers duplicated at equal and different quantifier depths in both orders) on every core network through model_check_formula, _dirty, model_check_tree, _tree_dirty; (1a) all closed formulae with <= 3 (4) nodes over all operators + templates on four networks whose variable names are unusual as data (Ca_extra_cell / b_extra_1, x / xx, a / ab, EF1 / TRUE); (1e) the same bound on five networks that are unusual as data (constants only, a constant feeding a toggle, 4 variables, an implicit function of 3 regulators, a sink); (1c) deterministic deep quantifier nests (4..10 quantifiers on one branch on 1-variable networks, up to 6 on con2; graphs with as many spare variable sets); (1d) 13 hybrid formulae with closed forms on a frozen 32-variable network whose argument set has a BDD of ~2^17 nodes (large as data), and 8 temporal formulae with closed forms on the same set on a network with two rising chains; (1b) every ordered pair of a pool of closed formulae as a two-element batch through model_check_multiple_formulae(_dirty), each position against the oracle, and batches of 40 (100) formulae with tied heights in three orders through model_check_multiple_formulae(_dirty) / model_check_multiple_trees(_dirty), each position against the oracle; (2) all closed formulae with <= 3 (every 25th network: 4) nodes on every network of the de-duplicated family of ALL 2-variable networks of the grammar; (3) all closed formulae with exactly m nodes in every operator slice (each pair of operator groups x each quantifier, jump included). Every result is compared on every state x valid colour with the explicit-state oracle; distinct_nontrivial = number of distinct (network, verdict table) pairs that are neither empty nor full".into();
     Ok(rep)
 }
 
